@@ -716,8 +716,8 @@ def find_memo_wrappers(ctx: Ctx) -> List[MemoWrapper]:
             sets = []
             gets = []
             for n in walk_no_nested(inner.node):
-                if isinstance(n, ast.Assign) and len(n.targets) == 1 and isinstance(n.targets[0], ast.Subscript):
-                    sets.append(n.targets[0])
+                if isinstance(n, ast.Assign):
+                    sets.extend(t for t in n.targets if isinstance(t, ast.Subscript))
                 if isinstance(n, ast.Call) and isinstance(n.func, ast.Attribute) and n.func.attr == "get" and n.args:
                     gets.append((n.func.value, n.args[0]))
                 if isinstance(n, ast.Compare) and len(n.ops) == 1 and isinstance(n.ops[0], (ast.In, ast.NotIn)):
@@ -733,6 +733,14 @@ def find_memo_wrappers(ctx: Ctx) -> List[MemoWrapper]:
                         if not calls_wrapped:
                             continue
                         root, _ = ef.root_of(inner, s.value)
+                        if root == "local" and isinstance(s.value, ast.Name):
+                            # a local bound to getattr(<obj>, '<store>', ...) / <obj>.<store>: the store lives on <obj>
+                            for d in walk_no_nested(inner.node):
+                                if isinstance(d, ast.Assign) and any(isinstance(t, ast.Name) and t.id == s.value.id for t in d.targets) \
+                                        and isinstance(d.value, ast.Call) and norm(d.value.func) == "getattr" and d.value.args:
+                                    root, _ = ef.root_of(inner, d.value.args[0])
+                                    if isinstance(d.value.args[0], ast.Name) and d.value.args[0].id == "self":
+                                        root = "self"
                         wp = next((c.func.id for c in walk_no_nested(inner.node)
                                    if isinstance(c, ast.Call) and isinstance(c.func, ast.Name) and c.func.id in params))
                         out.append(MemoWrapper(deco, inner, root, norm(s.value), gkey, s.slice, wp))
@@ -793,8 +801,16 @@ def rule_cache1(ctx: Ctx) -> RuleResult:
     for f in ctx.prog.all_funcs():
         for d in f.decorators:
             base = d.split("(")[0]
-            if base.split(".")[-1] in ("lru_cache", "cache", "cached_property") and f in cone:
+            in_cli = f in ctx.cli_cone or f.relpath.endswith("cli.py")
+            if base.split(".")[-1] in ("lru_cache", "cache", "cached_property") and (f in cone or in_cli):
                 rr.instances += 1
+                if f not in cone and not base.endswith("cached_property"):
+                    rr.ob(f.relpath, f.qualname, "@" + d, "what one command line read or computed is not served to the next one in "
+                          "the same process", VIOLATED,
+                          "functools cache on a function of the command line: it is process-global and keyed by the arguments only "
+                          "(a path, an option string), so a second run sees the first run's file content or result even when the "
+                          "file has changed", f.node.lineno)
+                    continue
                 if base.endswith("cached_property"):
                     rr.ob(f.relpath, f.qualname, "@" + d, "per-instance cache", DISCHARGED,
                           "functools.cached_property stores on the instance", f.node.lineno)
